@@ -85,14 +85,18 @@ def gen_op(w, rng, focus):
         kw = {}
         for key, dom in (("model_key", ["hertz_para", "hertz_para", "hertz_cone"]),
                          ("range_type", ["absolute", "relative cp", "absolute", "bogus"]),
-                         ("range_x", [[0, 0], (0, 0), [-8e-7, 4e-7], (-8e-7, 4e-7), [-1.2e-6, 4e-7], "OBJ:range"]),
+                         ("range_x", [[0, 0], (0, 0), [-8e-7, 4e-7], (-8e-7, 4e-7), [-1.2e-6, 4e-7], "OBJ:range",
+                                      [6e-7, 4e-7], (9e-7, 4e-7)]),
+                         ("optimal_fit_edelta", [True, True, False]),
+                         ("optimal_fit_num_samples", [7, 9]),
                          ("segment", [0, 1, "approach", "retract"]),
                          ("weight_cp", [0, 5e-7, 1e-6, False]),
                          ("gcf_k", [1.0, 1, 0.5]),
                          ("params_initial", [None, "OBJ:params", "OBJ:params", "OBJ:cone"]),
                          ("method_kws", ["OBJ:method_kws", {}]),
                          ("bogus_key", [1])):
-            p = {"bogus_key": 0.03, "range_type": 0.25, "params_initial": 0.35}.get(key, 0.3)
+            p = {"bogus_key": 0.03, "range_type": 0.25, "params_initial": 0.35, "optimal_fit_edelta": 0.1,
+                 "optimal_fit_num_samples": 0.08}.get(key, 0.3)
             if rng.random() < p:
                 v = rng.choice(dom)
                 kw[key] = w.obj[v[4:]] if isinstance(v, str) and v.startswith("OBJ:") else copy.deepcopy(v)
@@ -134,7 +138,13 @@ def do_mut(w, which, rng):
                                                         "frechet_direct_path"])
     elif which == "params":
         c = rng.random()
-        if c < 0.4:
+        if c < 0.15:
+            # only a limit changes (the value stays inside)
+            if rng.random() < 0.5:
+                o["E"].max = o["E"].value * rng.choice([1.05, 1.5, 1e3])
+            else:
+                o["E"].min = o["E"].value * rng.choice([0.95, 0.5, 0.0])
+        elif c < 0.4:
             o["E"].value = o["E"].value * rng.choice([2, 0.5, 1.000001])
         elif c < 0.6:
             o["R"].value = o["R"].value * rng.choice([2, 0.5, 1.0008])
@@ -166,6 +176,11 @@ def exec_op(ctx, w, op, rng, check_fresh):
     if op["op"] == "mut":
         do_mut(w, op["which"], rng)
         w.last_mut = op["which"]
+        return None, None
+    if op["op"] == "mutfn":
+        op["fn"](w)
+        w.last_mut = None
+        w.history.append(op["desc"])
         return None, None
     attr_call = False
     if op["op"] == "pp" and op["steps"] == "ATTR":
@@ -232,6 +247,8 @@ def exec_op(ctx, w, op, rng, check_fresh):
             outcome = "err TypeError"
         except nfit.FitKeyError:
             outcome = "err FitKeyError"
+        except nfit.FitDataError:
+            outcome = "err FitDataError"
         except BaseException as e:  # noqa
             outcome = "err other:" + type(e).__name__
     after = [deep_state(a) for a in args]
@@ -383,6 +400,56 @@ def run_directed(ctx, lines, expect, hists, check_fresh, which=None, cid=0):
                          nontrivial="dir:" + "|".join(x[0] for x in pre + [a, b_]), bucket="stream=directed")
 
 
+def scenarios():
+    """targeted histories (boundary-coincident edits that the random stream reaches rarely)"""
+    def setp(name, attr, val):
+        def fn(w):
+            setattr(w.obj["params"][name], attr, val)
+        return {"op": "mutfn", "fn": fn, "desc": f"edit params in place ({name}.{attr} = {val!r})"}
+    pp1 = {"op": "pp", "steps": copy.deepcopy(P1[0]), "opts": copy.deepcopy(P1[1]), "rd": False, "via_fit": False}
+
+    def fitobj(w):
+        return {"op": "fit", "kw": {"params_initial": w.obj["params"], "model_key": "hertz_para"}}
+    plateau = {"op": "fit", "kw": {"optimal_fit_edelta": True, "optimal_fit_num_samples": 7,
+                                   "range_x": [-8e-7, 4e-7], "range_type": "absolute"}}
+    return [
+        ("only the upper limit of a parameter edited (limit becomes active)",
+         [pp1, setp("E", "value", 80.0), fitobj, setp("E", "max", 150.0), fitobj]),
+        ("only the lower limit of a parameter edited (limit becomes active)",
+         [pp1, setp("E", "value", 2000.0), fitobj, setp("E", "min", 1000.0), fitobj]),
+        ("only the upper limit edited (limit stays inactive)",
+         [pp1, fitobj, setp("E", "max", 1e6), fitobj]),
+        ("plateau search, then only range_x[0] changes to an inverted interval",
+         [pp1, plateau, {"op": "fit", "kw": {"range_x": [6e-7, 4e-7]}}]),
+        ("plateau search, then range_x[0] set directly to an inverted interval",
+         [pp1, plateau, {"op": "set", "key": "range_x", "value": [6e-7, 4e-7]}, {"op": "fit", "kw": {}}]),
+        ("plateau search, then only range_x[0] changes (ordinary interval)",
+         [pp1, plateau, {"op": "fit", "kw": {"range_x": [-1.2e-6, 4e-7]}}]),
+        ("plateau search, then range_x[1] changes",
+         [pp1, plateau, {"op": "fit", "kw": {"range_x": [-8e-7, 2e-7]}}]),
+    ]
+
+
+def run_scenarios(ctx, lines, expect, hists, check_fresh):
+    for name, ops in scenarios():
+        for cid in (0, 2):
+            w = histlib.World(cid, ctx.rng)
+            lines.append({"op": "new"})
+            expect.append(None)
+            hists.append(None)
+            for op in ops:
+                op = op(w) if callable(op) else copy.copy(op)
+                if "kw" in op:
+                    op["kw"] = {k: (v if k == "params_initial" else copy.deepcopy(v)) for k, v in op["kw"].items()}
+                line, obs = exec_op(ctx, w, op, ctx.rng, check_fresh)
+                if line is None:
+                    continue
+                lines.append(line)
+                expect.append((op, obs))
+                hists.append(list(w.history))
+            ctx.case({"scenario": name, "curve": cid}, nontrivial=f"scenario:{name}:{cid}", bucket="stream=scenarios")
+
+
 def run_histories(ctx, pid, focus, nhist, check_fresh=True, direct_pp_edits=True, directed=None):
     from nanite import preproc
     rng = ctx.rng
@@ -416,6 +483,7 @@ def run_histories(ctx, pid, focus, nhist, check_fresh=True, direct_pp_edits=True
     if directed is not False:
         run_directed(ctx, lines, expect, hists, check_fresh, which=directed,
                      cid=2 if getattr(ctx, "check_rating_value", False) else 0)
+    run_scenarios(ctx, lines, expect, hists, check_fresh)
     out = ctx.driver("Indent", lines)
     if out is None:
         return
